@@ -4,7 +4,7 @@ from sx.harness import Raised
 from props import common as cm, h_wallet as hw
 
 ID = "C15"
-FUNCTIONS = ["btc_hd_wallet.__main__.paranoia_mode", "btc_hd_wallet.paper_wallet.PaperWallet.generate",
+FUNCTIONS = ["btc_hd_wallet.__main__.paranoia_mode", "btc_hd_wallet.__main__.main", "btc_hd_wallet.paper_wallet.PaperWallet.generate",
              "btc_hd_wallet.paper_wallet.PaperWallet.group", "btc_hd_wallet.paper_wallet.PaperWallet.pprint",
              "btc_hd_wallet.paper_wallet.PaperWallet.export_wallet", "btc_hd_wallet.paper_wallet.PaperWallet.json",
              "btc_hd_wallet.paper_wallet.PaperWallet.bip85_data", "btc_hd_wallet.paper_wallet.PaperWallet.master_data"]
@@ -146,8 +146,20 @@ def emit(E, R, testnet, ln, channel):
     return "ok"
 
 
+def cli(E, R, command, testnet, to_file, ln):
+    """the real main() with --paranoia: what reaches stdout / the file is the filtered mapping of the requested
+    account and interval, and contains no secret"""
+    from props import C20
+    return C20.main_wiring(E, R, command, testnet, True, to_file, ln)
+
+
 def cases(tier):
     cs = []
+    for command, t, f, ln in (("from-mnemonic", False, True, 1), ("from-bip39-seed", True, False, 1), ("new", False, False, 0),
+                              ("from-entropy-hex", True, True, 0), ("from-master-xprv", False, True, 1)):
+        cs.append(Case("cli[%s,testnet=%s,file=%s,len=%d]" % (command, t, f, ln), "cli", dict(command=command, testnet=t, to_file=f, ln=ln),
+                       weight=12, max_paths=5000,
+                       need=("emitted JSON equals the API result for the same wallet, account and interval (filtered iff --paranoia)",)))
     top = 2 if tier == "quick" else 4
     for t in (False, True):
         for ln in range(0, top + 1):
